@@ -246,6 +246,36 @@ CHECKS = {
    technique="Lean 4 proof (generic ordered-field model, invariants over call histories) + regenerated kernels with bridge "
              "lemmas + exact-rational differential correspondence",
    ref="DESIGN.md §4 C09"),
+ "C12": dict(
+   text="Lean theorems over the pair-selection model for every n, every generic distance matrix, every component "
+        "function and every argsort answer satisfying its contract, every N >= 1: proposed pairs name two different "
+        "existing minima and no unordered pair twice (closest_enumeration, connect_unconnected, select_minima's "
+        "dispatch); nearest-neighbour enumeration proposes exactly the N closest others of each minimum; "
+        "connect-unconnected proposes only pairs in different components, includes for every minimum outside the "
+        "global minimum's component its closest minimum outside its own component, and proposes nothing iff connected; "
+        "argsort is unique under distinct distances. Slice bounds, the [0,0] filter, the tuple sort, the f_set/s_set "
+        "test and the scheme dispatch are regenerated from the source (bridge lemmas); pure correspondence on random "
+        "real networks with several components and isolated minima.",
+   note="connected components (networkx) and argsort (numpy) are oracles validated per run; the output order comes from a "
+        "Python set and is compared as a set; generic positions as the property's domain.",
+   technique="Lean 4 proof (set characterisations for all graphs and N) + regenerated kernel bridge + pure differential "
+             "correspondence",
+   ref="DESIGN.md §4 C12"),
+ "C20": dict(
+   text="Lean theorems over every ordered field: a standard displacement moves each coordinate by at most half the step "
+        "and ends in the box; an atomic displacement changes exactly the sampled atoms, never atom 0, each axis by at "
+        "most half the step; Q^T R_x Q is orthogonal, fixes the rotation axis and is undone by the opposite rotation; a "
+        "map that is rigid on the moved fragment, identity elsewhere and fixes the axis preserves every "
+        "(moved,moved), (fixed,fixed) and (axis,anything) distance - hence bond lengths and, off rings, bond angles; "
+        "bond-length and bond-angle changes act rigidly; box predicates (check/at/all/active bounds, clipping) agree "
+        "with direct comparison against the box. Comparison operators, constants, ranges and the rotation matrix are "
+        "regenerated from the source (bridge lemmas); exact correspondence under scripted random draws and "
+        "trace-driven rigid moves on every rotatable dihedral / angle / bond of the test molecules.",
+   note="floating-point rigidity is numeric (1e-9); scipy's rotation for rotate_angle is an orthogonal-matrix oracle "
+        "validated per run; trig functions are parameters with c^2 + s^2 = 1.",
+   technique="Lean 4 proof (order and matrix algebra over ordered fields) + regenerated kernel bridge + scripted-draw and "
+             "trace-driven correspondence",
+   ref="DESIGN.md §4 C20"),
 }
 
 NOT_YET = {}
